@@ -66,6 +66,18 @@ pub async fn run_case(backend: &str, seed: u64, rep: &mut Report, corr: &mut Cor
             pool.push(ch.id);
         }
     }
+    // half of the cases start with a shared, non-empty FILE log (an external file made before the devices diverge)
+    let with_files = rng.chance(1, 2);
+    let mut file_no = 0u32;
+    if with_files {
+        let mut a = w.devices[0].lock().await;
+        let p = w.tmp.path().join(format!("ext-{file_no}.bin")); file_no += 1;
+        std::fs::write(&p, format!("shared external file {seed}").as_bytes())?;
+        let secret: sos_vault::secret::Secret = p.try_into()?;
+        let meta = sos_vault::secret::SecretMeta::new("shared-file".into(), secret.kind());
+        a.create_secret(meta, secret, Default::default()).await?;
+        script.push("base external file".into());
+    }
     for k in 0..n_dev { let r = w.sync(k).await; script.push(format!("sync d{k} -> {:?}", r)); }
     for k in 0..n_dev { let r = w.sync(k).await; script.push(format!("sync d{k} -> {:?}", r)); }
     // ancestor state
@@ -103,8 +115,27 @@ pub async fn run_case(backend: &str, seed: u64, rep: &mut Report, corr: &mut Cor
         let before = w.device_logs(k).await;
         for _ in 0..n_edits {
             let mut a = w.devices[k].lock().await;
-            match rng.below(5) {
+            match rng.below(if with_files { 8 } else { 5 }) {
                 0 => { let (m, s) = note(&format!("n{}", rng.below(1000)), "x"); let _ = a.create_secret(m, s, Default::default()).await; script.push(format!("edit d{k} create")); }
+                5 | 6 => {
+                    // an external file: a file event in the FILE log (and a secret in the default folder)
+                    let p = w.tmp.path().join(format!("ext-{file_no}.bin")); file_no += 1;
+                    std::fs::write(&p, format!("external file {seed} {file_no} of d{k}").as_bytes())?;
+                    let secret: sos_vault::secret::Secret = p.try_into()?;
+                    let meta = sos_vault::secret::SecretMeta::new(format!("file-d{k}-{file_no}"), secret.kind());
+                    let r = a.create_secret(meta, secret, Default::default()).await;
+                    script.push(format!("edit d{k} external-file -> {}", r.is_ok()));
+                }
+                7 if pre != 5 => {
+                    // sync switched off and on again around an edit, all in one offline batch
+                    if let Some(f) = a.default_folder().await {
+                        let flags = f.flags().clone();
+                        let r1 = a.update_folder_flags(f.id(), flags.clone() | sos_core::VaultFlags::NO_SYNC).await.is_ok();
+                        let (m, s) = note(&format!("while-no-sync-{}", rng.below(1000)), "x"); let _ = a.create_secret(m, s, Default::default()).await;
+                        let r2 = a.update_folder_flags(f.id(), flags).await.is_ok();
+                        script.push(format!("edit d{k} no-sync-toggle -> {r1} {r2}"));
+                    }
+                }
                 1 | 2 if !pool.is_empty() => {
                     let id = *rng.pick(&pool);
                     let (m, s) = note(&format!("upd-d{k}-{}", rng.below(100)), "y");
